@@ -285,19 +285,21 @@ func (r *Recorder) Diag() kapacitor.Diagnostic { return &tmDiag{r: r} }
 func (d *tmDiag) WithTaskContext(task string) kapacitor.TaskDiagnostic {
 	return &taskDiag{r: d.r, task: task}
 }
-func (d *tmDiag) WithTaskMasterContext(tm string) kapacitor.Diagnostic { return &tmDiag{r: d.r, tm: tm} }
+func (d *tmDiag) WithTaskMasterContext(tm string) kapacitor.Diagnostic {
+	return &tmDiag{r: d.r, tm: tm}
+}
 func (d *tmDiag) WithNodeContext(node string) kapacitor.NodeDiagnostic {
 	return &nodeDiag{r: d.r, node: node}
 }
 func (d *tmDiag) WithEdgeContext(task, parent, child string) kapacitor.EdgeDiagnostic {
 	return edgeDiag{}
 }
-func (d *tmDiag) TaskMasterOpened()       {}
-func (d *tmDiag) TaskMasterClosed()       {}
-func (d *tmDiag) StartingTask(id string)  {}
-func (d *tmDiag) StartedTask(id string)   {}
-func (d *tmDiag) StoppedTask(id string)   { d.r.mu.Lock(); d.r.stopped[id] = ""; d.r.mu.Unlock() }
-func (d *tmDiag) TaskMasterDot(s string)  {}
+func (d *tmDiag) TaskMasterOpened()      {}
+func (d *tmDiag) TaskMasterClosed()      {}
+func (d *tmDiag) StartingTask(id string) {}
+func (d *tmDiag) StartedTask(id string)  {}
+func (d *tmDiag) StoppedTask(id string)  { d.r.mu.Lock(); d.r.stopped[id] = ""; d.r.mu.Unlock() }
+func (d *tmDiag) TaskMasterDot(s string) {}
 func (d *tmDiag) StoppedTaskWithError(id string, err error) {
 	d.r.mu.Lock()
 	d.r.stopped[id] = fmt.Sprint(err)
